@@ -390,7 +390,7 @@ def textIndent (c : OutCfg) (o : RenderOpts) (s : OutSt) (pc : Chunk) (prevCol p
 /-- the general branch = indentation, then the text, then the optional tab after `#define` -/
 theorem renderText_o (c : OutCfg) (o : RenderOpts) (s : RSt) (pc : Chunk) (prevCol prevLen : Nat) :
     (renderText c o s pc prevCol prevLen).1.o =
-      let s1 := addText c (textIndent c o s.o pc prevCol prevLen) pc.txt (pc.ty = "STRING")
+      let s1 := addText c (textIndent c o s.o pc prevCol prevLen) pc.txt (pc.ty = "STRING" ∨ pc.ty = "STRING_MULTI")
       let s2 := if pc.ty = "PP_DEFINE" ∧ o.forceTabAfterDefine then addChar c s1 9 false else s1
       { s2 with didNl := pc.isNewline, trail := false } := by
   unfold renderText textIndent preIndent lvlCol
@@ -417,7 +417,7 @@ theorem renderText_ok (c : OutCfg) (o : RenderOpts) (s : RSt) (pc : Chunk) (prev
     (h : TermOK c.nl s.o.out) : TermOK c.nl (renderText c o s pc prevCol prevLen).1.o.out := by
   rw [renderText_o]
   simp only []
-  have h1 := addText_ok c _ pc.txt (pc.ty = "STRING") (textIndent_ok c o s.o pc prevCol prevLen h)
+  have h1 := addText_ok c _ pc.txt (pc.ty = "STRING" ∨ pc.ty = "STRING_MULTI") (textIndent_ok c o s.o pc prevCol prevLen h)
   split
   · exact addChar_ok c _ 9 false h1
   · exact h1
@@ -510,7 +510,7 @@ theorem renderText_vis (c : OutCfg) (o : RenderOpts) (s : RSt) (pc : Chunk) (pre
     (hnl : NlOK c.nl) : vis (renderText c o s pc prevCol prevLen).1.o.out = vis s.o.out ++ vis pc.txt := by
   rw [renderText_o]
   simp only []
-  have h1 := addText_vis c (textIndent c o s.o pc prevCol prevLen) pc.txt (pc.ty = "STRING") hnl
+  have h1 := addText_vis c (textIndent c o s.o pc prevCol prevLen) pc.txt (pc.ty = "STRING" ∨ pc.ty = "STRING_MULTI") hnl
   rw [textIndent_vis c o s.o pc prevCol prevLen hnl] at h1
   split
   · show vis (addChar c _ 9 false).out = _
@@ -1259,11 +1259,11 @@ theorem renderText_rout_after (c : OutCfg) (o : RenderOpts) (s : RSt) (pc : Chun
       tail ++ x :: flushed (textIndent c o s.o pc prevCol prevLen) := by
   rw [renderText_o, htxt]
   simp only []
-  have h1 : (addChar c (textIndent c o s.o pc prevCol prevLen) x (pc.ty = "STRING")).rout =
+  have h1 : (addChar c (textIndent c o s.o pc prevCol prevLen) x (pc.ty = "STRING" ∨ pc.ty = "STRING_MULTI")).rout =
       x :: flushed (textIndent c o s.o pc prevCol prevLen) := by
     rw [addChar_visible c _ x _ hb he hl]; rfl
-  have e1 : Ext (addChar c (textIndent c o s.o pc prevCol prevLen) x (pc.ty = "STRING"))
-      (addText c (textIndent c o s.o pc prevCol prevLen) (x :: rest) (pc.ty = "STRING")) :=
+  have e1 : Ext (addChar c (textIndent c o s.o pc prevCol prevLen) x (pc.ty = "STRING" ∨ pc.ty = "STRING_MULTI"))
+      (addText c (textIndent c o s.o pc prevCol prevLen) (x :: rest) (pc.ty = "STRING" ∨ pc.ty = "STRING_MULTI")) :=
     addText_ext' c _ rest _
   split
   · obtain ⟨tail, ht, _⟩ := (e1.trans (addChar_ext' c _ 9 false)).rout
